@@ -239,7 +239,9 @@ func Generate(seed uint64) *Corpus {
 			case 1:
 				lt = &T{K: List, Elem: link}
 			case 2:
-				lt = &T{K: Map, Key: g.scalar(keyKinds[r.Intn(len(keyKinds))]), Elem: link}
+				// a map of the next member of the cluster, held by pointer or by value (a map of itself by value is
+				// a legal recursive type)
+				lt = &T{K: Map, Key: g.scalar(keyKinds[r.Intn(len(keyKinds))]), Elem: &T{K: Struct, S: next, Ptr: r.Chance(1, 2)}}
 			default:
 				lt = &T{K: List, Elem: &T{K: Struct, S: next, Ptr: false}}
 			}
@@ -429,6 +431,17 @@ func (g *gen) aliasAndFixed() []*StructDef {
 			&Field{ID: 2, Name: "F2", T: &T{K: List, Elem: &T{K: Struct, S: "Defaults"}}},
 			&Field{ID: 3, Name: "F3", T: &T{K: Map, Key: &T{K: I32}, Elem: &T{K: Struct, S: "Defaults", Ptr: true}}, Req: Optional},
 			&Field{ID: 4, Name: "F4", T: &T{K: Struct, S: "Defaults"}})
+	}
+	// pairs of unrelated definitions with the same largest id and the same number of fields whose other ids differ
+	// by multiples of 64 (anything keyed by "id modulo word size" or by a summary of the id set confuses them)
+	for i, ids := range [][2][]uint16{{{1, 2, 100}, {1, 66, 100}}, {{5, 70, 200, 300}, {5, 6, 200, 236}}, {{0, 63, 64, 4096}, {64, 127, 128, 4096}}} {
+		for j, set := range ids {
+			var fs []*Field
+			for k, id := range set {
+				fs = append(fs, f(id, []Req{Default, Required, Optional, Default}[k%4], []Kind{I32, String, I64, I16}[(k+j)%4]))
+			}
+			mk(fmt.Sprintf("IdSet%d%c", i, 'A'+j), j == 1, fs...)
+		}
 	}
 	// field-less definitions (nothing but the holder, or nothing at all), and holders of them
 	mk("EmptyN", false)
